@@ -335,7 +335,9 @@ def s4(ctx, rep):
     ok = len(stops) == 1
     if ok:
         at = ctx.facts(b).at(stops[0].id)
-        ok = any(a[0] == "lt" and a[1].replace(" ", "") in ("1/self.rf", "1.0/self.rf") and a[2] in lastv for a in at)
+        from .common import value_pred
+        is_last = value_pred(b, lambda v: isinstance(v, ast.Subscript) and U(v.slice) == "-1" and is_rank_vec(v.value))
+        ok = any(a[0] == "lt" and a[1].replace(" ", "") in ("1/self.rf", "1.0/self.rf") and (a[2] in lastv or is_last(a[2])) for a in at)
     rep.put(ok, "S4", "guarded_by", "_Bracket.on_result: STOP iff rank > 1 / reduction_factor", b, stops[0].ast if stops else None, "",
             "the STOP decision is not taken exactly when the rank fraction exceeds 1/reduction_factor")
     # normalisation of the rank: searchsorted / len
